@@ -22,7 +22,8 @@ RULE = ('carts = (0x4300 bytes of region memory from a mode mixture incl. unifor
         ' Written under file names containing braces, percent signs, blanks, non-ASCII and a leading dash. Part "big": a 22k-glyph single line with escapes, 24k characters of glyph comment lines (> 64 KiB of UTF-8, seven alignments), code over the 65535-character limit and over the 8192-token limit (picotool warns and writes), each under a plain and three awkward file names via file / cli / stream.'
         ' Further "big" shapes: line_counts (exactly 128/255/256/257/511/512/513/1024 code lines, with/without final newline) and header_like (lines of the form __X__ that are not section headers by the format\'s ASCII word rule, in strings, comments and as a glyph identifier alone on a line).'
         ' A sixteenth of the carts end their code in a bare CR.'
-        ' A third of the file / cli writes go over an existing, different, labelled cart at the destination (and at *_fmt.p8).')
+        ' A third of the file / cli writes go over an existing, different, labelled cart at the destination (and at *_fmt.p8).'
+        ' Part "two_carts": `p8tool writep8 A B` with two generated carts, among them B named like the output of A (a.p8 a_fmt.p8): every output must hold its own cart.')
 ASSUMPTIONS = ['the cart\'s Lua code is what Game.lua.to_lines() yields before the write',
                'sources with a `__section__`-looking line or an #include line are outside the domain (counted)',
                'music bit 7 of every 4th byte is excepted, as the property states']
@@ -337,13 +338,74 @@ def part_file(ctx):
             lambda v: one(ctx, v[0], v[1]), max_examples=40 if ctx.quick else 300)
 
 
+def check_two_carts(seed_a, seed_b, names, case):
+    """`p8tool writep8 A B` where B's file name is the name of A's output (a.p8 and a_fmt.p8: the second cart is an
+    earlier output that is converted again in the same call): each cart's output must be that cart."""
+    from pico8 import tool
+    carts = []
+    for sd in (seed_a, seed_b):
+        c = gen_case(sd)
+        if excluded(c['code']) or b'\r' in c['code']:
+            return None
+        c = dict(c, version=c['version'] % 256)
+        carts.append(c)
+    with tempfile.TemporaryDirectory(prefix='c03t_') as td:
+        paths = [os.path.join(td, n) for n in names]
+        for c, pth in zip(carts, paths):
+            with open(pth, 'wb') as fh:
+                fh.write(reffmt.write_p8(c['version'], c['code'], c['mem'], label=c['label']))
+        cwd = os.getcwd()
+        os.chdir(td)
+        try:
+            try:
+                rc = tool.main(['writep8'] + list(names))
+            except Exception as e:
+                raise Violation('`p8tool writep8 %s` raised %r' % (' '.join(names), e), case, 'two-carts')
+        finally:
+            os.chdir(cwd)
+        if rc != 0:
+            raise Violation('`p8tool writep8 %s` returned %r' % (' '.join(names), rc), case, 'two-carts')
+        for c, n in zip(carts, names):
+            outp = os.path.join(td, n[:-3] + '_fmt.p8')
+            if not os.path.exists(outp):
+                raise Violation('`p8tool writep8 %s` wrote no %s' % (' '.join(names), os.path.basename(outp)), case, 'two-carts')
+            r = reffmt.read_written(open(outp, 'rb').read(), case, what=os.path.basename(outp))
+            want_mem = c['mem'][:0x3100] + reffmt.music_mask(c['mem'][0x3100:0x3200]) + c['mem'][0x3200:]
+            got_mem = r['gfx'] + r['map'] + r['gff'] + r['music'] + r['sfx']
+            if r['version'] != c['version'] or got_mem != want_mem or r['label'] != c['label']:
+                what = 'version' if r['version'] != c['version'] else 'label' if got_mem == want_mem else 'data regions'
+                raise Violation('`p8tool writep8 %s`: %s does not hold the cart given as %s (%s differ; it holds version %r, '
+                                'the cart has version %r)' % (' '.join(names), os.path.basename(outp), n, what, r['version'],
+                                                              c['version']), case, 'two-carts')
+    return carts
+
+
+def part_two_carts(ctx):
+    def body(v):
+        sa, sb, k = v
+        names = (('a.p8', 'a_fmt.p8'), ('a_fmt.p8', 'a.p8'), ('x.p8', 'y.p8'), ('cart.p8', 'cart_fmt.p8'))[k]
+        case = {'two': True, 'seed_a': bytes(sa), 'seed_b': bytes(sb), 'names': list(names)}
+        carts = check_two_carts(sa, sb, names, case)
+        if carts is None:
+            ctx.stats.exclude('section_like_or_include_line')
+            return
+        collide = names[1] == names[0][:-3] + '_fmt.p8'
+        ctx.stats.case(bytes(sa) + bytes(sb) + bytes((k,)), collide, {'names': list(names)} if k == 0 else None,
+                       ['two_carts_in_one_call'] + (['second_cart_is_named_like_first_output'] if collide else []))
+    ctx.hyp('two_carts', st.tuples(st.binary(min_size=300, max_size=300), st.binary(min_size=300, max_size=300),
+                                   st.integers(0, 3)), body, max_examples=10 if ctx.quick else 60)
+
+
 def parts(tier):
     if tier == 'quick':
-        return [('stream', part_stream, 3), ('file', part_file, 1), ('big', part_big, 6)]
-    return [('stream', part_stream, 12), ('file', part_file, 2), ('big', part_big, 12)]
+        return [('stream', part_stream, 3), ('file', part_file, 1), ('big', part_big, 6), ('two_carts', part_two_carts, 1)]
+    return [('stream', part_stream, 12), ('file', part_file, 2), ('big', part_big, 12), ('two_carts', part_two_carts, 2)]
 
 
 def replay(case):
+    if case.get('two'):
+        check_two_carts(case['seed_a'], case['seed_b'], tuple(case['names']), case)
+        return
     if 'big' in case:
         check_cart(big_case(case['seed'], case['big']), case.get('via', 'file'), case, fname=case.get('fname', 'cart'))
     elif 'seed' in case:
@@ -365,7 +427,7 @@ def vacuity(total, tier):
     msgs = []
     for lab in ('label', 'no_label', 'no_final_newline', 'via_cli', 'via_file', 'loaded_then_edited', 'untouched_sfx', 'big_oneline', 'big_lines',
                 'big_over_chars', 'big_over_tokens', 'big_line_counts', 'big_header_like', 'awkward_file_name',
-                'code_ends_in_bare_cr', 'unlabelled_over_existing_labelled_cart'):
+                'code_ends_in_bare_cr', 'unlabelled_over_existing_labelled_cart', 'second_cart_is_named_like_first_output'):
         if total.classes.get(lab, 0) < 3:
             msgs.append('class %s seen %d times' % (lab, total.classes.get(lab, 0)))
     return msgs
